@@ -220,7 +220,7 @@ def _work(chunk):
 
 def programs(tier, seed):
     rng = random.Random(seed * 9176 + 8)
-    n = 250 if tier == "quick" else 6000
+    n = 250 * common.boost() if tier == "quick" else 6000
     progs = list(pygen.HAND) + [p for p in pygen.corpus_programs() if p not in pygen.HAND]
     for _ in range(n):
         progs.append(pygen.gen_program(rng, rng.randint(3, 11), depth=rng.choice([2, 3, 3, 4])))
